@@ -25,6 +25,7 @@ Three strengths of "same meaning" are used (Lemmas/Rewrites.lean): equality of t
 everything that follows fails) and `HeadEq` (same first success).
 -/
 import RegexVerif.Lemmas.Rewrites
+import RegexVerif.Lemmas.AutoAtomic
 
 namespace RegexVerif.Props.C05
 open RegexVerif RegexVerif.Spec
@@ -706,5 +707,211 @@ theorem bumpalong_lazy_in_atomic_counterexample :
     attempt (env [97, 97, 98, 99]) p false 0 = none
     ∧ runLen (env [97, 97, 98, 99]) (.one 97 false) 0 = 2
     ∧ attempt (env [97, 97, 98, 99]) p false 1 = some ⟨4, [(0, 1, 3)]⟩ := by decide
+
+/-! ## 8. the certifier: tree.go's syntactic tests imply the semantic side conditions
+
+`Model/AutoAtomic.lean` defines the syntactic side: `ks` (does a continuation fail / stay at the
+positions a loop would give back — the case analysis of `canBeMadeAtomic`), `canAtomic` (the
+decision), and `cert`/`certTop` (a walk over the un-rewritten and the rewritten tree of a pattern
+that recognises every place where a loop became atomic, a lazy loop was cut to its minimum or a
+construct was wrapped in Atomic, and checks that the continuation justifies it).  The theorems
+below tie them to the laws of sections 2 and 3.  The two oracle bits have the meaning
+`Oracle.Sound`: `disj p q` — no rune satisfies both tests; `uni p` — the runes `p` accepts are all
+word characters or all non-word characters.  Leg Cz evaluates `certTop` on the engine's own pair of
+trees with the bits computed from the engine's sets and Go's `unicode` tables. -/
+
+open RegexVerif.AutoAtomic
+
+/-- the oracle that knows nothing: only Lean's own rune comparisons are used -/
+def o0 : Oracle := ⟨fun _ _ => false, fun _ => false⟩
+
+theorem o0_sound (e : Env) : o0.Sound e :=
+  ⟨fun _ _ h => (by cases h), fun _ h => (by cases h)⟩
+
+/-- **the case analysis of `canBeMadeAtomic` is sound, "return true" cases**: when `ks` says that
+    the continuation `k` *kills* the site `s` (a disjoint One/Notone/Set/Multi next, a loop with
+    `M > 0` over one, `\z`, `$`/`\Z` with `'\n'` outside the loop's set, `\b` after a loop with
+    `M > 0` over runes of one kind, looked at through Concatenate/Capture/Atomic/positive lookahead
+    and through every branch of an alternation or conditional), `k` has no success from any
+    position the loop would give back. -/
+theorem ks_kills_sound {e : Env} {o : Oracle} (hs : o.Sound e) (s : Site) (k : Pat) (h : (ks o s k).1 = true) :
+    Kills e (siteDead e s) k := (ks_sound hs s k).1 h
+
+/-- **… "goto end" cases**: when `ks` says `k` *stays* (a loop with `M == 0` over a disjoint
+    character, a boundary, Empty, a lookaround), `k` can only succeed without moving from such a
+    position — so what follows `k` is again at a position the loop would give back. -/
+theorem ks_stays_sound {e : Env} {o : Oracle} (hs : o.Sound e) (s : Site) (k : Pat) (h : (ks o s k).2 = true) :
+    Stays e (siteDead e s) k := (ks_sound hs s k).2 h
+
+/-- `[ab]*` in front of `(?:c|d+)x`: every branch fails in front of `a`/`b` (rune comparisons only) -/
+example : (ks o0 (.acc (.one 97 false)) (.seq (.alt (lit 99) (plus 100)) (lit 120))).1 = true := by decide
+/-- in front of `b*` it only stays -/
+example : ks o0 (.acc (.one 97 false)) (star 98) = (false, true) := by decide
+/-- in front of `a` neither -/
+example : ks o0 (.acc (.one 97 false)) (lit 97) = (false, false) := by decide
+
+/-- a continuation that `totalS` accepts always has a success (`b*`, Empty, `(?:x|)`, …) -/
+theorem totalS_total (e : Env) (k : Pat) (h : totalS k = true) (st : St) : m e k false st ≠ [] :=
+  totalS_sound e k h st
+
+example : totalS (.seq (star 98) (.alt (lit 120) .empty)) = true := by decide
+
+/-- **`canAtomic_sound`** — the decision implies the side condition of `loop_atomic_disjoint`:
+    what follows the loop (`subsequent`, then `rest`) has no success from a position where the loop
+    over `loopPred` could have gone on (for `lo ≥ 1`: from a position between two runes the loop
+    accepts). -/
+theorem canAtomic_sound {e : Env} {o : Oracle} (hs : o.Sound e) (loopPred : Pred) (lo : Nat) (subsequent : Pat)
+    (rest : List Pat) (h : canAtomic o loopPred lo subsequent rest = true) :
+    Kills e (siteDead e (loopSite loopPred lo)) (seqOf (subsequent :: rest)) :=
+  contKills_sound hs _ _ h
+
+/-- for a loop with minimum 0 this is literally `StartsOutside` -/
+theorem canAtomic_startsOutside {e : Env} {o : Oracle} (hs : o.Sound e) (loopPred : Pred) (subsequent : Pat)
+    (rest : List Pat) (h : canAtomic o loopPred 0 subsequent rest = true) :
+    StartsOutside e loopPred (seqOf (subsequent :: rest)) := by
+  intro st hd
+  exact canAtomic_sound hs loopPred 0 subsequent rest h st (by simpa [loopSite, siteDead] using hd)
+
+/-- **a greedy loop the decision accepts may be made atomic**: the concatenation with everything
+    that follows has the same ordered successes (`processNode`, `case NtOneloop, NtNotoneloop,
+    NtSetloop`) -/
+theorem canAtomic_greedy {e : Env} {o : Oracle} (hs : o.Sound e) (p : Pred) (lo : Nat) (hi : Option Nat)
+    (subsequent : Pat) (rest : List Pat) (h : canAtomic o p lo subsequent rest = true) (st : St) :
+    m e (.seq (.quant false lo hi (.chr p)) (seqOf (subsequent :: rest))) false st
+      = m e (.seq (.atomic (.quant false lo hi (.chr p))) (seqOf (subsequent :: rest))) false st := by
+  have hk := canAtomic_sound hs p lo subsequent rest h
+  unfold loopSite at hk
+  by_cases hlo : 1 ≤ lo
+  · rw [if_pos hlo] at hk
+    exact (charloop_eqMod_atomic_between e p lo hi hlo).seq_kill _ hk st
+  · rw [if_neg hlo] at hk
+    exact (charloop_eqMod_atomic e p lo hi).seq_kill _ hk st
+
+/-- **a lazy loop the decision accepts may be made the atomic greedy loop** (`case NtOnelazy, …`:
+    "lazy to greedy") -/
+theorem canAtomic_lazy {e : Env} {o : Oracle} (hs : o.Sound e) (p : Pred) (lo : Nat) (hi : Option Nat)
+    (subsequent : Pat) (rest : List Pat) (h : canAtomicLazy o p subsequent rest = true) (st : St) :
+    m e (.seq (.quant true lo hi (.chr p)) (seqOf (subsequent :: rest))) false st
+      = m e (.seq (.atomic (.quant false lo hi (.chr p))) (seqOf (subsequent :: rest))) false st :=
+  (lazy_charloop_eqMod_atomic e p lo hi).seq_kill _ (contKills_sound hs (.acc p) _ h) st
+
+/-- `a*b*c`: `a*` against `b*` then `c` (the `iterateNullableSubsequent` walk) -/
+example : canAtomic o0 (.one 97 false) 0 (star 98) [lit 99] = true := by decide
+/-- `a*b*a`: no -/
+example : canAtomic o0 (.one 97 false) 0 (star 98) [lit 97] = false := by decide
+/-- `a+\b-`: a loop with minimum 1 in front of `\b`, whatever follows -/
+example : canAtomic o0 (.one 97 false) 1 (.anchor .boundary) [lit 45] = true := by decide
+/-- `a*\b`: not with minimum 0 (`n.M > 0`) -/
+example : canAtomic o0 (.one 97 false) 0 (.anchor .boundary) [] = false := by decide
+/-- the instance on a text: `a*b*c` on "aabc" -/
+example : m (env [97, 97, 98, 99]) (.seq (star 97) (seqOf [star 98, lit 99])) false st0
+    = m (env [97, 97, 98, 99]) (.seq (.atomic (star 97)) (seqOf [star 98, lit 99])) false st0 :=
+  canAtomic_greedy (o0_sound _) _ 0 none _ _ (by decide) st0
+
+/-- **at the end of the pattern** (`canBeMadeAtomic`: `parent == nil … return true`): when every item
+    up to the end either fails at the given-back positions or stays there and always succeeds, the
+    loop may be made atomic as far as the first success — all that `find` observes — is concerned
+    (`a*b*` ⇒ `(?>a*)b*`; the full lists differ). -/
+theorem canAtomicEnd_sound {e : Env} {o : Oracle} (hs : o.Sound e) (p : Pred) (lo : Nat) (hi : Option Nat)
+    (rest : List Pat) (h : canAtomicEnd o p lo rest = true) :
+    HeadEq e false (.seq (.quant false lo hi (.chr p)) (seqOf rest)) (.seq (.atomic (.quant false lo hi (.chr p))) (seqOf rest)) := by
+  have hE : EqMod e (siteDead e (loopSite p lo)) false (.quant false lo hi (.chr p)) (.atomic (.quant false lo hi (.chr p))) := by
+    unfold loopSite
+    by_cases hlo : 1 ≤ lo
+    · rw [if_pos hlo]; exact charloop_eqMod_atomic_between e p lo hi hlo
+    · rw [if_neg hlo]; exact charloop_eqMod_atomic e p lo hi
+  rcases contEnd_sound hs _ rest h with hk | ⟨_, ht⟩
+  · exact headEq_seq_step _ hE (Or.inr hk)
+  · exact headEq_seq_step _ hE (Or.inl ⟨headEq_atomic e false _, ht⟩)
+
+example : canAtomicEnd o0 (.one 97 false) 0 [star 98] = true := by decide
+/-- `a*b*` on "aab": the lists differ, the heads agree -/
+example : m (env [97, 97, 98]) (.seq (star 97) (star 98)) false st0 = [⟨3, []⟩, ⟨2, []⟩, ⟨1, []⟩, ⟨0, []⟩]
+    ∧ m (env [97, 97, 98]) (.seq (.atomic (star 97)) (star 98)) false st0 = [⟨3, []⟩, ⟨2, []⟩] := by decide
+
+/-- **KF2, the negative result.**  The condition `subsequent.T == NtNonboundary && n.M > 0 &&
+    !IsWordChar(n.Ch)` of `canBeMadeAtomic` (and its Set variants for `\W`, `\D`) is NOT a sound
+    reason: there is an environment, a loop over a non-word rune with minimum 1 and the
+    continuation `\B` for which the atomic loop changes the result. -/
+theorem nonboundary_rule_unsound :
+    ¬ ∀ (e : Env) (p : Pred) (lo : Nat) (hi : Option Nat), 1 ≤ lo → (∀ r, p.test e r = true → e.isWord r = false) →
+      ∀ st, m e (.seq (.quant false lo hi (.chr p)) (.anchor .nonboundary)) false st
+        = m e (.seq (.atomic (.quant false lo hi (.chr p))) (.anchor .nonboundary)) false st := by
+  intro h
+  have := h (env [45, 45, 98]) (.one 45 false) 1 none (by decide)
+    (fun r hr => by
+      simp only [Pred.test, Bool.false_eq_true, if_false, beq_iff_eq] at hr
+      subst hr; decide) st0
+  rw [show Pat.seq (.quant false 1 none (.chr (.one 45 false))) (.anchor .nonboundary) = .seq (plus 45) (.anchor .nonboundary) from rfl,
+    show Pat.seq (.atomic (.quant false 1 none (.chr (.one 45 false)))) (.anchor .nonboundary) = .seq (.atomic (plus 45)) (.anchor .nonboundary) from rfl,
+    kf2_nonword_loop_before_nonboundary.1, kf2_nonword_loop_before_nonboundary.2] at this
+  cases this
+
+/-- … and therefore `ks` has no such case: `\B` never discharges a site, whatever the oracle says
+    (it only stays) — -/
+theorem nonboundary_never_kills (o : Oracle) (s : Site) : ks o s (.anchor .nonboundary) = (false, true) := by
+  cases s <;> rfl
+
+/-- — so the engine's decision `-+\B` ⇒ `(?>-+)\B` (and every decision of that shape) is rejected
+    by the certifier under every oracle; leg Cz files these under the known finding KF2. -/
+theorem kf2_not_certified (o : Oracle) :
+    certTop o (.seq (plus 45) (.anchor .nonboundary)) (.seq (.atomic (plus 45)) (.anchor .nonboundary)) = false := by
+  rfl
+
+/-- but `-+\Bx` ⇒ `(?>-+)\Bx` is fine (and certified): after `\B` comes something that fails -/
+example : certTop o0 (.seq (plus 45) (.seq (.anchor .nonboundary) (lit 120)))
+    (.seq (.atomic (plus 45)) (.seq (.anchor .nonboundary) (lit 120))) = true := by decide
+
+/-- **the tree walk is sound.**  If `cert` reports no error for the un-rewritten tree `p` and the
+    rewritten tree `p'` (both evaluated in direction `d`), then the two have the same ordered
+    successes except for successes ending at a dead position of a site that is still pending, and —
+    when the result says so — the same first success.  (This is the invariant; the two theorems
+    after it are what it gives for whole patterns.) -/
+theorem cert_holds {e : Env} {o : Oracle} (hs : o.Sound e) (p : Pat) (d : Bool) (p' : Pat)
+    (h : (cert o d p p').errs = []) :
+    EqMod e (dead e (cert o d p p').sites) d p p' ∧ ((cert o d p p').head = true → HeadEq e d p p') :=
+  cert_sound hs p d p' h
+
+/-- no site pending: the two trees are interchangeable in every context -/
+theorem cert_equal {e : Env} {o : Oracle} (hs : o.Sound e) (p : Pat) (d : Bool) (p' : Pat)
+    (h : (cert o d p p').errs = []) (hsites : (cert o d p p').sites = []) (st : St) :
+    m e p d st = m e p' d st :=
+  (cert_sound hs p d p' h).eq hsites st
+
+/-- `(x a*|c*)b` ⇒ `(x(?>a*)|(?>c*))b`: two sites, both discharged by `b` -/
+example : (cert o0 false (.seq (.cap 1 (.alt (.seq (lit 120) (star 97)) (star 99))) (lit 98))
+    (.seq (.cap 1 (.alt (.seq (lit 120) (.atomic (star 97))) (.atomic (star 99)))) (lit 98))).sites = [] := by decide
+
+/-- **`auto_atomic_certified`** — a pattern whose rewritten tree the certifier accepts has the same
+    `find` result from every start position: same match, same captures.  Everything
+    `findAndMakeLoopsAtomic` and `eliminateEndingBacktracking` did to the tree — loops made atomic
+    in front of what `canBeMadeAtomic` accepted, lazy loops made greedy atomic, ending constructs
+    made atomic or cut to their minimum, inside captures, alternations, conditionals, atomic groups,
+    lookarounds and loop bodies — is covered by the one hypothesis `certTop o p p' = true`, which
+    leg Cz evaluates on the engine's own trees. -/
+theorem auto_atomic_certified {e : Env} {o : Oracle} (hs : o.Sound e) {p p' : Pat} (h : certTop o p p' = true)
+    (start : Nat) : find e p false start = find e p' false start :=
+  find_congr_head (certTop_headEq hs h) start
+
+/-- `a*?b(?:c+|d*)` ⇒ `(?>a*)b(?>(?>c+)|(?>d*))` (lazy to greedy, ending loops, wrapped alternation) -/
+example : certTop o0
+    (.seq (lazyStar 97) (.seq (lit 98) (.alt (plus 99) (star 100))))
+    (.seq (.atomic (star 97)) (.seq (lit 98) (.atomic (.alt (.atomic (plus 99)) (.atomic (star 100)))))) = true := by decide
+
+/-- the loop-body rule: `(?:ca a*){2}x` ⇒ `(?:ca(?>a*)){2}x` -/
+example : certTop o0
+    (.seq (.quant false 2 (some 2) (.seq (lit 99) (.seq (lit 97) (star 97)))) (lit 120))
+    (.seq (.quant false 2 (some 2) (.seq (lit 99) (.seq (lit 97) (.atomic (star 97))))) (lit 120)) = true := by decide
+
+/-- what D8 (inverted `MayOverlap`) did — `[ab]*` made atomic in front of `[bc]*c` — is rejected
+    unless the oracle claims the two sets are disjoint, which a sound oracle cannot -/
+example : certTop o0
+    (.seq (.quant false 0 none (.chr (.set (.base false [(97, 98)] []) false))) (.seq (.quant false 0 none (.chr (.set (.base false [(98, 99)] []) false))) (lit 99)))
+    (.seq (.atomic (.quant false 0 none (.chr (.set (.base false [(97, 98)] []) false)))) (.seq (.quant false 0 none (.chr (.set (.base false [(98, 99)] []) false))) (lit 99))) = false := by decide
+
+/-- an instance of the theorem on a text -/
+example : find (env [120, 97, 97, 98]) (.seq (star 97) (lit 98)) false 0
+    = find (env [120, 97, 97, 98]) (.seq (.atomic (star 97)) (lit 98)) false 0 :=
+  auto_atomic_certified (o0_sound _) (by decide) 0
 
 end RegexVerif.Props.C05
